@@ -59,12 +59,14 @@ def main(argv):
                      not mism and not errs, ('%d mismatches; ' % len(mism)) + '; '.join(errs)[:600] if (mism or errs) else '')
         # search: the mismatching bodies through the AstVm oracle on many more valuations
         probe_found = False
+        probe_runs = []
         for i in mism[:12]:
             bits, body = src_of(texts[i])
             pp = os.path.join(WORK, 'C02', 'probe%d.txt' % i)
             open(pp, 'w').write(body)
             rc, out = sh([harness_bin('c02'), 'text', pp, str(bits)], timeout=600, env={'VERIF_SEED': str(seed), 'VERIF_NVALS': '300'})
             for l in out.splitlines():
+                if l.startswith('RUN\t'): probe_runs.append((l.split('\t')[1], body, bits))
                 if l.startswith('ORACLE-FAIL'):
                     parts = l.split('\t')
                     key = parts[1].split(':')[0]
@@ -74,6 +76,14 @@ def main(argv):
                                 {'class': 'c02-oracle:' + key, 'source_text': body, 'cfgbits': bits, 'detail': parts[1]})
                     break
             if probe_found: break
+        if probe_runs and not probe_found:
+            # the probed bodies' runs (first valuations + those with a timing-only difference) against the model's machines
+            pm, pe = coq_eval_cases(PROP, IMPORTS, 'c02case', [r[0] for r in probe_runs], shard=4, tag='proberun')
+            for i in pm[:2]:
+                probe_found = True
+                v.violation('a body on which model and implementation lower differently runs differently from the model (time, real time, instruction log or registers)',
+                            {'class': 'c02-corr-run', 'case': probe_runs[i][0][-3000:], 'source_text': probe_runs[i][1], 'cfgbits': probe_runs[i][2],
+                             'broken': 'correspondence Corr.C02.model_run'})
         for i in mism[:4]:
             bits, body = src_of(texts[i])
             v.violation('model/implementation disagreement on the lowered instruction list',
